@@ -364,3 +364,910 @@ Proof.
       * apply Hne. symmetry. eapply nodup_concat_unique; eauto.
       * apply Hfresh. apply (in_concat_nth _ q'); assumption.
 Qed.
+
+(* J does not depend on the order of the timers map *)
+Lemma J_timers_equiv s t' :
+  J s -> NoDup (map fst t') -> (forall kv, In kv t' <-> In kv (ctimers s)) ->
+  J (mkC (cn s) (cint s) (cpos s) (cheap s) (cslots s) t').
+Proof.
+  intros [H1 H2 H3 H4 H5 H6 H7 H8] Hnd Heq.
+  constructor; cbn [cheap cslots ctimers cn cint cpos]; auto.
+  - intros k p id Hin. apply H6. apply Heq. exact Hin.
+  - intros q id Hq Hin. destruct (H7 q id Hq Hin) as (A & B). split; [exact A|].
+    intros Hl. apply Heq. apply B. exact Hl.
+Qed.
+
+(* (P2) flag a mapped cell removed and forget its key *)
+Lemma J_remove s k p id :
+  J s -> In (k, (p, id)) (ctimers s) ->
+  J (mkC (cn s) (cint s) (cpos s)
+         (upd_nth id (fun c => mkCell (ckey c) (cval c) (ccircle c) (cdiff c) true) (cheap s))
+         (cslots s) (tdel k (ctimers s))).
+Proof.
+  intros HJ Hin. pose proof HJ as [H1 H2 H3 H4 H5 H6 H7 H8].
+  destruct (H6 k p id Hin) as (Hp & Hid & Hkey & Hlive & Hslot).
+  constructor; cbn [cheap cslots ctimers cn cint cpos]; auto.
+  - apply tdel_nodup. exact H5.
+  - intros k' p' id' Hin'. apply tdel_in in Hin'. destruct Hin' as [Hin' Hne]. cbn in Hne.
+    destruct (H6 k' p' id' Hin') as (A & B & C & D & F).
+    assert (id <> id').
+    { intros ->. destruct (J_id_key s k p id' k' p' HJ Hin Hin'). congruence. }
+    rewrite upd_nth_length. rewrite hget_upd_neq by assumption. auto.
+  - intros q id' Hq Hin'. destruct (H7 q id' Hq Hin') as (A & B).
+    rewrite upd_nth_length. split; [exact A|].
+    destruct (Nat.eq_dec id id') as [->|Hne].
+    + rewrite hget_upd_eq by exact A. cbn. discriminate.
+    + rewrite hget_upd_neq by exact Hne. intros Hl. specialize (B Hl).
+      apply tdel_in. split; [exact B|]. cbn. intros Hk.
+      rewrite Hk in B. pose proof (tmap_unique _ _ _ _ H5 Hin B) as E0. congruence.
+Qed.
+
+(* (P2') flag the mapped cell removed and map the key to a fresh live cell *)
+Lemma J_reinsert s k p id v c d np :
+  J s -> In (k, (p, id)) (ctimers s) -> 0 <= np < cn s ->
+  J (mkC (cn s) (cint s) (cpos s)
+         (upd_nth id (fun c => mkCell (ckey c) (cval c) (ccircle c) (cdiff c) true) (cheap s)
+          ++ [mkCell k v c d false])
+         (push np (length (cheap s)) (cslots s))
+         (tput k (np, length (cheap s)) (ctimers s))).
+Proof.
+  intros HJ Hin Hnp.
+  pose proof (J_remove s k p id HJ Hin) as HJ1.
+  set (s1 := mkC _ _ _ _ _ _) in HJ1.
+  assert (Hnone : tget k (ctimers s1) = None).
+  { destruct (tget k (ctimers s1)) as [pi|] eqn:E0; [|reflexivity].
+    apply tget_in in E0. cbn in E0. apply tdel_in in E0. cbn in E0. tauto. }
+  pose proof (J_insert s1 k v c d np HJ1 Hnone Hnp) as HJ2.
+  cbn [cheap cslots ctimers cn cint cpos s1] in HJ2. rewrite upd_nth_length in HJ2.
+  set (s2 := mkC _ _ _ _ _ _) in HJ2.
+  apply (J_timers_equiv s2 (tput k (np, length (cheap s)) (ctimers s))) in HJ2.
+  - exact HJ2.
+  - apply tput_nodup. apply (J_keys s HJ).
+  - intros kv. cbn [ctimers s2]. split; intros H.
+    + apply tput_in in H. destruct H as [->|[H Hne]]; [apply tput_in_new|].
+      apply tput_in_old; [|exact Hne]. apply tdel_in. auto.
+    + apply tput_in in H. destruct H as [->|[H Hne]]; [apply tput_in_new|].
+      apply tdel_in in H. apply tput_in_old; tauto.
+Qed.
+
+(* ------------------------------------------------------------------ *)
+(* abstraction equalities                                               *)
+
+Lemma upd_absl h (t : tmap) k f :
+  upd k f (absl h t) = map (fun kv => if fst kv =? k then f (E h kv) else E h kv) t.
+Proof. unfold upd, absl. rewrite map_map. reflexivity. Qed.
+
+Lemma absl_update s k p id g f :
+  J s -> In (k, (p, id)) (ctimers s) ->
+  E (upd_nth id g (cheap s)) (k, (p, id)) = f (E (cheap s) (k, (p, id))) ->
+  absl (upd_nth id g (cheap s)) (ctimers s) = upd k f (absl (cheap s) (ctimers s)).
+Proof.
+  intros HJ Hin Hf. rewrite upd_absl. unfold absl. apply map_ext_in.
+  intros [k' [p' id']] Hin'. cbn [fst].
+  destruct (Z.eqb_spec k' k) as [->|Hne].
+  - pose proof (tmap_unique _ _ _ _ (J_keys s HJ) Hin Hin') as E0. inversion E0; subst. exact Hf.
+  - unfold E; cbn [fst snd]. rewrite hget_upd_neq; [reflexivity|].
+    intros ->. destruct (J_id_key s k p id' k' p' HJ Hin Hin'). congruence.
+Qed.
+
+Lemma absl_retarget s k p id np :
+  J s -> In (k, (p, id)) (ctimers s) ->
+  absl (upd_nth id (fun c => mkCell (ckey c) (cval c) (ccircle c) (cdiff c) true) (cheap s)
+          ++ [mkCell k (cval (hget (cheap s) id)) 0 0 false])
+       (tput k (np, length (cheap s)) (ctimers s))
+  = upd k (fun e' => mkEntry (ekey e') (evalue e') np 0 0) (absl (cheap s) (ctimers s)).
+Proof.
+  intros HJ Hin. rewrite upd_absl. unfold tput.
+  rewrite (proj2 (tget_iff _ _ _ (J_keys s HJ)) Hin). unfold absl. rewrite map_map.
+  apply map_ext_in. intros [k' [p' id']] Hin'. cbn [fst].
+  destruct (Z.eqb_spec k' k) as [->|Hne].
+  - pose proof (tmap_unique _ _ _ _ (J_keys s HJ) Hin Hin') as E0. inversion E0; subst.
+    assert (Hnew : forall h' c, length h' = length (cheap s) ->
+              hget (h' ++ [c]) (length (cheap s)) = c)
+      by (intros h' c <-; apply hget_app_new).
+    unfold E; cbn [fst snd ekey evalue].
+    rewrite Hnew by apply upd_nth_length. reflexivity.
+  - unfold E; cbn [fst snd]. destruct (J_tim s HJ _ _ _ Hin') as (_ & Hlt & _).
+    rewrite hget_app_old by (rewrite upd_nth_length; exact Hlt).
+    rewrite hget_upd_neq; [reflexivity|].
+    intros ->. destruct (J_id_key s k p id' k' p' HJ Hin Hin'). congruence.
+Qed.
+
+Lemma absl_insert s k v c d np :
+  J s -> tget k (ctimers s) = None ->
+  absl (cheap s ++ [mkCell k v c d false]) (tput k (np, length (cheap s)) (ctimers s))
+  = absl (cheap s) (ctimers s) ++ [mkEntry k v np c d].
+Proof.
+  intros HJ Hk. unfold tput. rewrite Hk. unfold absl. rewrite map_app. cbn [map]. f_equal.
+  - apply map_ext_in. intros [k' [p' id']] Hin'. unfold E; cbn [fst snd].
+    destruct (J_tim s HJ _ _ _ Hin') as (_ & Hlt & _). rewrite hget_app_old by exact Hlt. reflexivity.
+  - unfold E; cbn [fst snd]. rewrite hget_app_new. reflexivity.
+Qed.
+
+Lemma absl_remove s k p id :
+  J s -> In (k, (p, id)) (ctimers s) ->
+  absl (upd_nth id (fun c => mkCell (ckey c) (cval c) (ccircle c) (cdiff c) true) (cheap s))
+       (tdel k (ctimers s))
+  = drop k (absl (cheap s) (ctimers s)).
+Proof.
+  intros HJ Hin. unfold drop, absl, tdel.
+  pose proof (J_keys s HJ) as Hnd.
+  assert (Hall : forall kv, In kv (ctimers s) -> fst kv <> k ->
+            E (upd_nth id (fun c => mkCell (ckey c) (cval c) (ccircle c) (cdiff c) true) (cheap s)) kv
+            = E (cheap s) kv).
+  { intros [k' [p' id']] Hin' Hne. cbn in Hne. unfold E; cbn [fst snd].
+    rewrite hget_upd_neq; [reflexivity|].
+    intros ->. destruct (J_id_key s k p id' k' p' HJ Hin Hin'). congruence. }
+  clear Hin Hnd. induction (ctimers s) as [|a t IH]; cbn; [reflexivity|].
+  destruct (Z.eqb_spec (fst a) k) as [Ea|Ea]; cbn.
+  - apply IH. intros kv Hkv. apply Hall. right. exact Hkv.
+  - rewrite Hall by (auto; left; reflexivity). f_equal.
+    apply IH. intros kv Hkv. apply Hall. right. exact Hkv.
+Qed.
+
+(* ------------------------------------------------------------------ *)
+(* Set / Move / Remove                                                  *)
+
+Lemma cmove_far_ok s k p id d :
+  J s -> In (k, (p, id)) (ctimers s) ->
+  J (cmove_far s k p id d) /\
+  cabs (cmove_far s k p id d) = move_far (cabs s) (E (cheap s) (k, (p, id))) d.
+Proof.
+  intros HJ Hin. destruct (J_tim s HJ _ _ _ Hin) as (Hp & Hid & Hkey & Hlive & Hslot).
+  unfold cmove_far, move_far. cbn [cabs sn sint spos sents E fst snd epos ekey evalue].
+  destruct (wait (cn s) (cpos s) p <=? d / cint s).
+  - split.
+    + apply J_field_update; [exact HJ|]. intros c. cbn. auto.
+    + unfold cabs; cbn [cn cint cpos cheap ctimers]. f_equal.
+      apply (absl_update s k p id); auto.
+      unfold E; cbn [fst snd]. rewrite hget_upd_eq by exact Hid. reflexivity.
+  - assert (Hnp : 0 <= (cpos s + d / cint s) mod cn s < cn s).
+    { apply Z.mod_pos_bound. pose proof (J_n s HJ). lia. }
+    split.
+    + apply (J_reinsert s k p id); auto.
+    + unfold cabs; cbn [cn cint cpos cheap ctimers]. f_equal.
+      refine (eq_trans (absl_retarget s k p id _ HJ Hin) _).
+      unfold upd, pos_of; cbn [sn spos]. apply map_ext. intros e.
+      destruct (ekey e =? k); reflexivity.
+Qed.
+
+Lemma drop_absent k l : lookup k l = None -> drop k l = l.
+Proof.
+  unfold lookup, drop. induction l as [|a l IH]; cbn; [reflexivity|].
+  destruct (ekey a =? k); [discriminate|]. intros H. cbn. f_equal. apply IH, H.
+Qed.
+
+Lemma lookup_cabs s k :
+  lookup k (sents (cabs s)) = option_map (fun pi => E (cheap s) (k, pi)) (tget k (ctimers s)).
+Proof. rewrite cabs_eq. cbn [sents]. apply lookup_absl. Qed.
+
+Lemma cstep_set s k v d :
+  J s -> J (cset_task s k v d) /\ cabs (cset_task s k v d) = set_task (cabs s) k v d.
+Proof.
+  intros HJ. unfold cset_task, set_task. rewrite lookup_cabs.
+  destruct (tget k (ctimers s)) as [[p id]|] eqn:Hk; cbn [option_map].
+  - apply tget_in in Hk. destruct (J_tim s HJ _ _ _ Hk) as (Hp & Hid & Hkey & Hlive & Hslot).
+    set (s1 := mkC (cn s) (cint s) (cpos s) (upd_nth id _ (cheap s)) (cslots s) (ctimers s)).
+    assert (HJ1 : J s1) by (apply J_field_update; [exact HJ|intros c; cbn; auto]).
+    destruct (cmove_far_ok s1 k p id (Z.max d (cint s)) HJ1 Hk) as [HJ2 Habs].
+    split; [exact HJ2|]. rewrite Habs. cbn [cabs sint cint].
+    f_equal.
+    + unfold cabs, s1; cbn [cn cint cpos cheap ctimers sn sint spos sents]. f_equal.
+      apply (absl_update s k p id); auto.
+      unfold E; cbn [fst snd]. rewrite hget_upd_eq by exact Hid. reflexivity.
+    + unfold s1, E; cbn [cheap fst snd ekey evalue epos ecircle ediff].
+      rewrite hget_upd_eq by exact Hid. reflexivity.
+  - assert (Hnp : 0 <= (cpos s + Z.max d (cint s) / cint s) mod cn s < cn s).
+    { apply Z.mod_pos_bound. pose proof (J_n s HJ). lia. }
+    split.
+    + apply J_insert; auto.
+    + unfold cabs; cbn [cn cint cpos cheap ctimers sn sint spos sents]. f_equal.
+      refine (eq_trans (absl_insert s k v _ _ _ HJ Hk) _). reflexivity.
+Qed.
+
+Lemma cstep_move s k d :
+  J s -> J (fst (cmove_task s k d)) /\
+         cabs (fst (cmove_task s k d)) = fst (move_task (cabs s) k d) /\
+         snd (cmove_task s k d) = snd (move_task (cabs s) k d).
+Proof.
+  intros HJ. unfold cmove_task, move_task. rewrite lookup_cabs.
+  destruct (tget k (ctimers s)) as [[p id]|] eqn:Hk; cbn [option_map].
+  - apply tget_in in Hk. destruct (J_tim s HJ _ _ _ Hk) as (Hp & Hid & Hkey & Hlive & Hslot).
+    cbn [cabs sint]. destruct (d <? cint s); cbn [fst snd].
+    + split; [exact HJ|]. split; [reflexivity|].
+      unfold E; cbn [evalue fst snd]. rewrite Hkey. reflexivity.
+    + destruct (cmove_far_ok s k p id d HJ Hk) as [HJ2 Habs]. auto.
+  - cbn [fst snd]. auto.
+Qed.
+
+Lemma cstep_remove s k :
+  J s -> J (cremove_task s k) /\ cabs (cremove_task s k) = remove_task (cabs s) k.
+Proof.
+  intros HJ. unfold cremove_task, remove_task.
+  destruct (tget k (ctimers s)) as [[p id]|] eqn:Hk.
+  - apply tget_in in Hk. split; [apply (J_remove s k p id); auto|].
+    unfold cabs; cbn [cn cint cpos cheap ctimers sn sint spos sents]. f_equal.
+    apply (absl_remove s k p id); auto.
+  - split; [exact HJ|]. rewrite drop_absent; [destruct s; reflexivity|].
+    rewrite lookup_cabs, Hk. reflexivity.
+Qed.
+
+(* ------------------------------------------------------------------ *)
+(* Drain                                                                *)
+
+Lemma fold_tdel_in (h : list cell) ids (t : tmap) kv :
+  In kv (fold_left (fun t id => tdel (ckey (hget h id)) t) ids t) <->
+  In kv t /\ forall id, In id ids -> fst kv <> ckey (hget h id).
+Proof.
+  revert t. induction ids as [|id ids IH]; intros t; cbn [fold_left].
+  - split; [intros H; split; [exact H|intros id []]|tauto].
+  - rewrite IH. rewrite tdel_in. split.
+    + intros [[H1 H2] H3]. split; [exact H1|]. intros id' [<-|Hin]; auto.
+    + intros [H1 H2]. split; [split; [exact H1|apply H2; left; reflexivity]|].
+      intros id' Hin. apply H2. right. exact Hin.
+Qed.
+
+Lemma nil_if_no_member {A} (l : list A) : (forall x, ~ In x l) -> l = [].
+Proof. destruct l as [|a l]; [reflexivity|]. intros H. exfalso. apply (H a). left. reflexivity. Qed.
+
+Lemma live_ids_nodup s :
+  J s ->
+  NoDup (map (fun id => (ckey (hget (cheap s) id), cval (hget (cheap s) id)))
+             (filter (fun id => negb (cremoved (hget (cheap s) id))) (concat (cslots s)))).
+Proof.
+  intros HJ. pose proof (J_nodup s HJ) as Hnd.
+  assert (Hinj : forall id id', In id (concat (cslots s)) -> In id' (concat (cslots s)) ->
+            cremoved (hget (cheap s) id) = false -> cremoved (hget (cheap s) id') = false ->
+            ckey (hget (cheap s) id) = ckey (hget (cheap s) id') -> id = id').
+  { intros id id' Hi Hi' Hl Hl' Hk.
+    apply in_concat_inv in Hi. destruct Hi as (q & Hq & Hi).
+    apply in_concat_inv in Hi'. destruct Hi' as (q' & Hq' & Hi').
+    destruct (J_slot s HJ q id Hq Hi) as (_ & B). destruct (J_slot s HJ q' id' Hq' Hi') as (_ & B').
+    specialize (B Hl). specialize (B' Hl'). rewrite Hk in B.
+    pose proof (tmap_unique _ _ _ _ (J_keys s HJ) B B') as E0. congruence. }
+  induction (concat (cslots s)) as [|a l IH]; cbn; [constructor|].
+  inversion Hnd as [|? ? Ha Hl]; subst.
+  destruct (cremoved (hget (cheap s) a)) eqn:Hr; cbn.
+  - apply IH; auto. intros; apply Hinj; auto; right; assumption.
+  - constructor.
+    + intros Hin. apply in_map_iff in Hin. destruct Hin as (x & Hx & Hxl).
+      apply filter_In in Hxl. destruct Hxl as [Hxl Hxr]. apply negb_true_iff in Hxr.
+      assert (x = a).
+      { apply Hinj; auto; [right; exact Hxl|left; reflexivity|congruence]. }
+      subst x. contradiction.
+    + apply IH; auto. intros; apply Hinj; auto; right; assumption.
+Qed.
+
+Lemma nth_map_nil {A} (l : list (list A)) q : nth q (map (fun _ => @nil A) l) [] = [].
+Proof. revert q. induction l as [|a l IH]; intros [|q]; cbn; auto. Qed.
+
+Lemma cstep_drain s :
+  J s -> J (fst (cdrain s)) /\ cabs (fst (cdrain s)) = fst (drain_all (cabs s)) /\
+         Permutation (snd (cdrain s)) (snd (drain_all (cabs s))).
+Proof.
+  intros HJ. unfold cdrain, drain_all; cbn [fst snd].
+  set (live := filter _ (concat (cslots s))).
+  assert (Ht : fold_left (fun t id => tdel (ckey (hget (cheap s) id)) t) live (ctimers s) = []).
+  { apply nil_if_no_member. intros [k [p id]] Hin. apply fold_tdel_in in Hin.
+    destruct Hin as [Hin Hno]. destruct (J_tim s HJ _ _ _ Hin) as (Hp & Hid & Hkey & Hlive & Hslot).
+    apply (Hno id); [|cbn; congruence].
+    apply filter_In. split; [|rewrite Hlive; reflexivity].
+    apply (in_concat_nth _ (Z.to_nat p)); [apply pos_nat_lt; assumption|exact Hslot]. }
+  rewrite Ht. split; [|split].
+  - pose proof HJ as [H1 H2 H3 H4 H5 H6 H7 H8].
+    assert (Hemp : forall q, nth q (map (fun _ : list nat => @nil nat) (cslots s)) [] = [])
+      by (intros q; apply nth_map_nil).
+    constructor; cbn [cheap cslots ctimers cn cint cpos].
+    + exact H1.
+    + exact H2.
+    + exact H3.
+    + rewrite map_length. exact H4.
+    + constructor.
+    + intros k p id [].
+    + intros q id _ Hin. rewrite Hemp in Hin. destruct Hin.
+    + clear. induction (cslots s) as [|a l IH]; cbn; [constructor|exact IH].
+  - reflexivity.
+  - cbn [cabs sents]. rewrite map_map. cbn [ekey evalue].
+    apply NoDup_Permutation.
+    + apply live_ids_nodup. exact HJ.
+    + pose proof (J_keys s HJ) as Hnd. revert Hnd. clear.
+      induction (ctimers s) as [|a t IH]; cbn; intros H; [constructor|].
+      inversion H as [|? ? Ha Hl]; subst. constructor; [|apply IH, Hl].
+      intros Hin. apply Ha. apply in_map_iff in Hin. destruct Hin as (x & Hx & Hxl).
+      apply in_map_iff. exists x. split; [congruence|exact Hxl].
+    + intros [k v]. split; intros Hin; apply in_map_iff in Hin; apply in_map_iff.
+      * destruct Hin as (id & [= Hk Hv] & Hid). apply filter_In in Hid.
+        destruct Hid as [Hid Hl]. apply negb_true_iff in Hl.
+        apply in_concat_inv in Hid. destruct Hid as (q & Hq & Hid).
+        destruct (J_slot s HJ q id Hq Hid) as (_ & B). specialize (B Hl).
+        exists (ckey (hget (cheap s) id), (Z.of_nat q, id)). cbn [fst snd]. split; [congruence|exact B].
+      * destruct Hin as ([k' [p id]] & [= Hk Hv] & Hin). cbn [fst snd] in *.
+        destruct (J_tim s HJ _ _ _ Hin) as (Hp & Hid & Hkey & Hlive & Hslot).
+        exists id. split; [congruence|].
+        apply filter_In. split; [|rewrite Hlive; reflexivity].
+        apply (in_concat_nth _ (Z.to_nat p)); [apply pos_nat_lt; assumption|exact Hslot].
+Qed.
+
+(* ------------------------------------------------------------------ *)
+(* Tick: the flat scan, key by key                                      *)
+
+Definition otl {A} (o : option A) : list A := match o with Some x => [x] | None => [] end.
+
+Definition scan_key (n p k : Z) (l : list entry) : list entry :=
+  flat_map (fun e => if ekey e =? k then otl (scan_entry n p e) else [e]) l.
+
+Definition mem (k : Z) (ks : list Z) : bool := existsb (Z.eqb k) ks.
+
+Lemma mem_in k ks : mem k ks = true <-> In k ks.
+Proof.
+  unfold mem. rewrite existsb_exists. split.
+  - intros (x & Hx & E0). apply Z.eqb_eq in E0. subst. exact Hx.
+  - intros H. exists k. split; [exact H|apply Z.eqb_refl].
+Qed.
+
+Lemma flat_map_ext_in {A B} (f g : A -> list B) l :
+  (forall a, In a l -> f a = g a) -> flat_map f l = flat_map g l.
+Proof.
+  induction l as [|a l IH]; cbn; intros H; [reflexivity|].
+  rewrite H by (left; reflexivity). f_equal. apply IH. intros b Hb. apply H. right. exact Hb.
+Qed.
+
+Lemma flat_map_flat_map {A B C} (f : A -> list B) (g : B -> list C) l :
+  flat_map g (flat_map f l) = flat_map (fun a => flat_map g (f a)) l.
+Proof.
+  induction l as [|a l IH]; cbn; [reflexivity|]. rewrite flat_map_app. f_equal. exact IH.
+Qed.
+
+Lemma map_as_flat_map {A B} (f : A -> B) l : map f l = flat_map (fun a => [f a]) l.
+Proof. induction l as [|a l IH]; cbn; [reflexivity|f_equal; exact IH]. Qed.
+
+Lemma map_filter_as_flat_map {A B} (f : A -> B) (q : A -> bool) l :
+  map f (filter q l) = flat_map (fun a => if q a then [f a] else []) l.
+Proof. induction l as [|a l IH]; cbn; [reflexivity|]. destruct (q a); cbn; [f_equal|]; exact IH. Qed.
+
+Lemma scan_fst n p l : fst (scan n p l) = flat_map (fun e => otl (scan_entry n p e)) l.
+Proof.
+  induction l as [|e l IH]; cbn [scan flat_map]; [reflexivity|].
+  destruct (scan n p l) as [keep f]. cbn [fst] in IH.
+  destruct (scan_entry n p e); cbn [fst otl app]; [f_equal|]; exact IH.
+Qed.
+
+Lemma scan_snd n p l :
+  snd (scan n p l) =
+  flat_map (fun e => match scan_entry n p e with None => [(ekey e, evalue e)] | Some _ => [] end) l.
+Proof.
+  induction l as [|e l IH]; cbn [scan flat_map]; [reflexivity|].
+  destruct (scan n p l) as [keep f]. cbn [snd] in IH.
+  destruct (scan_entry n p e); cbn [snd app]; [|f_equal]; exact IH.
+Qed.
+
+Lemma fold_scan_key n p ks l :
+  NoDup ks ->
+  fold_left (fun l k => scan_key n p k l) ks l =
+  flat_map (fun e => if mem (ekey e) ks then otl (scan_entry n p e) else [e]) l.
+Proof.
+  revert l. induction ks as [|k ks IH]; intros l Hnd; cbn [fold_left].
+  - cbn. induction l as [|a l IHl]; cbn; [reflexivity|]. f_equal. exact IHl.
+  - inversion Hnd as [|? ? Hk Hnd']; subst. rewrite IH by exact Hnd'.
+    unfold scan_key. rewrite flat_map_flat_map. apply flat_map_ext_in. intros e _.
+    unfold mem at 2; cbn [existsb]. fold (mem (ekey e) ks).
+    destruct (Z.eqb_spec (ekey e) k) as [Ek|Ek]; cbn [orb].
+    + destruct (scan_entry n p e) as [e'|] eqn:Es; cbn [otl flat_map]; [|reflexivity].
+      rewrite (scan_entry_key _ _ _ _ Es), Ek.
+      destruct (mem k ks) eqn:Em; [apply mem_in in Em; contradiction|]. reflexivity.
+    + cbn [flat_map]. rewrite app_nil_r. reflexivity.
+Qed.
+
+Lemma scan_is_fold n p ks l :
+  NoDup ks ->
+  (forall e, In e l -> epos e = p -> In (ekey e) ks) ->
+  fst (scan n p l) = fold_left (fun l k => scan_key n p k l) ks l.
+Proof.
+  intros Hnd Hcov. rewrite fold_scan_key by exact Hnd. rewrite scan_fst.
+  apply flat_map_ext_in. intros e He.
+  destruct (mem (ekey e) ks) eqn:Em; [reflexivity|].
+  unfold scan_entry. destruct (Z.eqb_spec (epos e) p) as [Ep|Ep]; [|reflexivity].
+  exfalso. specialize (Hcov e He Ep). apply mem_in in Hcov. congruence.
+Qed.
+
+Lemma scan_entry_ewf n p e e' :
+  0 < n -> ewf n e -> scan_entry n p e = Some e' -> ewf n e'.
+Proof.
+  intros Hn (Hp & Hc & Hd). unfold scan_entry. destruct (epos e =? p); [|intros [= <-]; unfold ewf; lia].
+  destruct (Z.ltb_spec 0 (ecircle e)); [intros [= <-]; unfold ewf; cbn; repeat split; lia|].
+  destruct (Z.ltb_spec 0 (ediff e)); [|discriminate]. intros [= <-]. unfold ewf; cbn.
+  pose proof (Z.mod_pos_bound (p + ediff e) n Hn). repeat split; lia.
+Qed.
+
+Lemma scan_key_ewf n p k l : 0 < n -> Forall (ewf n) l -> Forall (ewf n) (scan_key n p k l).
+Proof.
+  intros Hn H. unfold scan_key. apply Forall_forall. intros x Hx. apply in_flat_map in Hx.
+  destruct Hx as (e & He & Hx). rewrite Forall_forall in H. specialize (H e He).
+  destruct (ekey e =? k); [|destruct Hx as [<-|[]]; exact H].
+  destruct (scan_entry n p e) as [e'|] eqn:Es; cbn in Hx; [|contradiction].
+  destruct Hx as [<-|[]]. eapply scan_entry_ewf; eauto.
+Qed.
+
+Lemma mod_shift_ne n p d : 0 < n -> 0 <= p < n -> 0 < d < n -> (p + d) mod n <> p.
+Proof.
+  intros Hn Hp Hd E0.
+  destruct (Z.lt_ge_cases (p + d) n) as [Hlt|Hge].
+  - rewrite Z.mod_small in E0 by lia. lia.
+  - assert ((p + d) mod n = p + d - n).
+    { symmetry. apply (Z.mod_unique_pos _ _ 1); lia. }
+    lia.
+Qed.
+
+(* ------------------------------------------------------------------ *)
+(* Tick: slot surgery preserves J                                       *)
+
+Lemma drop_id_in p id sl q x :
+  In x (nth q (drop_id p id sl) []) -> In x (nth q sl []) /\ (q = Z.to_nat p -> x <> id).
+Proof.
+  unfold drop_id. intros H. destruct (Nat.eq_dec (Z.to_nat p) q) as [E0|E0].
+  - subst q. destruct (Nat.lt_ge_cases (Z.to_nat p) (length sl)) as [Hlt|Hge].
+    + rewrite nth_upd_nth_eq in H by exact Hlt. apply filter_In in H. destruct H as [H1 H2].
+      split; [exact H1|]. intros _ ->. rewrite Nat.eqb_refl in H2. discriminate.
+    + rewrite nth_overflow in H by (rewrite upd_nth_length; lia). destruct H.
+  - rewrite nth_upd_nth_neq in H by exact E0. split; [exact H|]. intros ->. contradiction.
+Qed.
+
+Lemma drop_id_keep p id sl q x :
+  In x (nth q sl []) -> x <> id -> In x (nth q (drop_id p id sl) []).
+Proof.
+  unfold drop_id. intros H Hne. destruct (Nat.eq_dec (Z.to_nat p) q) as [E0|E0].
+  - subst q. destruct (Nat.lt_ge_cases (Z.to_nat p) (length sl)) as [Hlt|Hge].
+    + rewrite nth_upd_nth_eq by exact Hlt. apply filter_In. split; [exact H|].
+      apply negb_true_iff, Nat.eqb_neq. exact Hne.
+    + rewrite nth_overflow in H by lia. destruct H.
+  - rewrite nth_upd_nth_neq by exact E0. exact H.
+Qed.
+
+Lemma drop_id_nodup p id sl : NoDup (concat sl) -> NoDup (concat (drop_id p id sl)).
+Proof.
+  intros Hnd. unfold drop_id.
+  destruct (Nat.lt_ge_cases (Z.to_nat p) (length sl)) as [Hlt|Hge].
+  - apply nodup_concat_upd; auto.
+    + apply NoDup_filter. apply nodup_concat_nth. exact Hnd.
+    + intros x Hx q' Hne Hq' Hin'. apply filter_In in Hx. destruct Hx as [Hx _].
+      apply Hne. symmetry. eapply nodup_concat_unique; eauto.
+  - replace (upd_nth (Z.to_nat p) _ sl) with sl; [exact Hnd|].
+    clear Hnd. revert Hge. generalize (Z.to_nat p) as i. induction sl as [|a l IH]; intros [|i] H; cbn in *; auto; try lia.
+    f_equal. apply IH. lia.
+Qed.
+
+(* drop a pointer that the map no longer (or never) refers to *)
+Lemma J_drop s p id t' :
+  J s -> NoDup (map fst t') ->
+  (forall kv, In kv t' -> In kv (ctimers s) /\ snd (snd kv) <> id) ->
+  (forall kv, In kv (ctimers s) -> snd (snd kv) <> id -> In kv t') ->
+  In id (nth (Z.to_nat p) (cslots s) []) -> (Z.to_nat p < length (cslots s))%nat ->
+  J (mkC (cn s) (cint s) (cpos s) (cheap s) (drop_id p id (cslots s)) t').
+Proof.
+  intros HJ Hnd Hsub Hsup Hid Hq0. pose proof HJ as [H1 H2 H3 H4 H5 H6 H7 H8].
+  constructor; cbn [cheap cslots ctimers cn cint cpos]; auto.
+  - unfold drop_id. rewrite upd_nth_length. exact H4.
+  - intros k p' id' Hin. destruct (Hsub _ Hin) as [Hin0 Hne]. cbn in Hne.
+    destruct (H6 k p' id' Hin0) as (A & B & C & D & F).
+    split; [exact A|]. split; [exact B|]. split; [exact C|]. split; [exact D|].
+    apply drop_id_keep; assumption.
+  - intros q id' Hq Hin. unfold drop_id in Hq. rewrite upd_nth_length in Hq.
+    apply drop_id_in in Hin. destruct Hin as [Hin Hne].
+    destruct (H7 q id' Hq Hin) as (A & B). split; [exact A|]. intros Hl.
+    apply Hsup; [apply B, Hl|]. cbn.
+    destruct (Nat.eq_dec q (Z.to_nat p)) as [E0|E0]; [apply Hne, E0|].
+    intros ->. apply E0. eapply nodup_concat_unique; eauto.
+  - apply drop_id_nodup. exact H8.
+Qed.
+
+(* hang an allocated, live, unmapped and unlinked cell into slot np under its key *)
+Lemma J_attach s k np id :
+  J s -> (id < length (cheap s))%nat -> ~ In id (concat (cslots s)) ->
+  cremoved (hget (cheap s) id) = false -> ckey (hget (cheap s) id) = k ->
+  tget k (ctimers s) = None -> 0 <= np < cn s ->
+  J (mkC (cn s) (cint s) (cpos s) (cheap s) (push np id (cslots s)) (tput k (np, id) (ctimers s))).
+Proof.
+  intros HJ Hid Hfresh Hlive Hkey Hk Hnp. pose proof (pos_nat_lt s np HJ Hnp) as Hq0.
+  destruct HJ as [H1 H2 H3 H4 H5 H6 H7 H8].
+  assert (Hkn : forall kv, In kv (ctimers s) -> fst kv <> k).
+  { intros kv Hin E0. apply (tget_none _ _ Hk). rewrite <- E0. apply in_map. exact Hin. }
+  constructor; cbn [cheap cslots ctimers cn cint cpos]; auto.
+  - unfold push. rewrite upd_nth_length. exact H4.
+  - apply tput_nodup. exact H5.
+  - intros k' p id' Hin. apply tput_in in Hin.
+    destruct Hin as [[= -> -> ->]|[Hin _]].
+    + repeat split; try lia; auto.
+      unfold push. rewrite nth_upd_nth_eq by exact Hq0. apply in_or_app. right. left. reflexivity.
+    + destruct (H6 k' p id' Hin) as (A & B & C & D & F).
+      split; [exact A|]. split; [exact B|]. split; [exact C|]. split; [exact D|].
+      unfold push. destruct (Nat.eq_dec (Z.to_nat np) (Z.to_nat p)) as [E0|E0].
+      * rewrite E0. rewrite nth_upd_nth_eq by (rewrite <- E0; exact Hq0).
+        apply in_or_app. left. exact F.
+      * rewrite nth_upd_nth_neq by exact E0. exact F.
+  - intros q id' Hq Hin. unfold push in *. rewrite upd_nth_length in Hq.
+    assert (Hold : In id' (nth q (cslots s) []) ->
+      (id' < length (cheap s))%nat /\
+      (cremoved (hget (cheap s) id') = false ->
+       In (ckey (hget (cheap s) id'), (Z.of_nat q, id')) (tput k (np, id) (ctimers s)))).
+    { intros Hin0. destruct (H7 q id' Hq Hin0) as (A & B). split; [exact A|]. intros Hl.
+      specialize (B Hl). apply tput_in_old; [exact B|]. apply (Hkn _ B). }
+    destruct (Nat.eq_dec (Z.to_nat np) q) as [E0|E0].
+    + subst q. rewrite nth_upd_nth_eq in Hin by exact Hq.
+      apply in_app_or in Hin. destruct Hin as [Hin|[<-|[]]]; [apply Hold, Hin|].
+      split; [exact Hid|]. intros _. rewrite Hkey. rewrite Z2Nat.id by lia. apply tput_in_new.
+    + rewrite nth_upd_nth_neq in Hin by exact E0. apply Hold, Hin.
+  - unfold push. apply nodup_concat_upd; auto.
+    + apply nodup_app_intro.
+      * apply nodup_concat_nth, H8.
+      * constructor; [intros []|constructor].
+      * intros x Hx [<-|[]]. apply Hfresh. apply (in_concat_nth _ (Z.to_nat np)); assumption.
+    + intros x Hx q' Hne Hq' Hin'. apply in_app_or in Hx. destruct Hx as [Hx|[<-|[]]].
+      * apply Hne. symmetry. eapply nodup_concat_unique; eauto.
+      * apply Hfresh. apply (in_concat_nth _ q'); assumption.
+Qed.
+
+(* ------------------------------------------------------------------ *)
+(* Tick: one iteration of the walk                                      *)
+
+Definition fires (c : cell) : bool :=
+  negb (cremoved c) && negb (0 <? ccircle c) && negb (0 <? cdiff c).
+
+Lemma flat_map_map {A B C} (g : A -> B) (f : B -> list C) l :
+  flat_map f (map g l) = flat_map (fun a => f (g a)) l.
+Proof. induction l as [|a l IH]; cbn; [reflexivity|]. f_equal. exact IH. Qed.
+
+Lemma scan_key_absl n p k h (t : tmap) :
+  scan_key n p k (absl h t) =
+  flat_map (fun kv => if fst kv =? k then otl (scan_entry n p (E h kv)) else [E h kv]) t.
+Proof. unfold scan_key, absl. rewrite flat_map_map. reflexivity. Qed.
+
+Lemma cscan1_ok p s f id :
+  J s -> cpos s = p -> In id (nth (Z.to_nat p) (cslots s) []) ->
+  let c := hget (cheap s) id in
+  let s' := fst (cscan1 p (s, f) id) in
+  J s' /\ cn s' = cn s /\ cint s' = cint s /\ cpos s' = cpos s /\
+  absl (cheap s') (ctimers s') =
+    (if cremoved c then absl (cheap s) (ctimers s)
+     else scan_key (cn s) p (ckey c) (absl (cheap s) (ctimers s))) /\
+  (forall id', id' <> id -> hget (cheap s') id' = hget (cheap s) id') /\
+  (forall id', id' <> id -> In id' (nth (Z.to_nat p) (cslots s) []) ->
+               In id' (nth (Z.to_nat p) (cslots s') [])) /\
+  snd (cscan1 p (s, f) id) = f ++ (if fires c then [(ckey c, cval c)] else []).
+Proof.
+  intros HJ Hpos Hin c s'.
+  assert (Hp : 0 <= p < cn s) by (rewrite <- Hpos; apply (J_pos s HJ)).
+  pose proof (pos_nat_lt s p HJ Hp) as Hq0.
+  destruct (J_slot s HJ _ _ Hq0 Hin) as (Hid & Hmap0).
+  rewrite Z2Nat.id in Hmap0 by lia. fold c in Hmap0.
+  unfold s', cscan1, fires. fold c.
+  destruct (cremoved c) eqn:Hrem; cbn [negb andb fst snd cn cint cpos cheap cslots ctimers].
+  - (* an entry flagged removed is unlinked *)
+    split; [|repeat split; auto using app_nil_r].
+    + apply (J_drop s p id (ctimers s)); auto.
+      * apply (J_keys s HJ).
+      * intros [k [p' id']] Hkv. split; [exact Hkv|]. cbn. intros ->.
+        destruct (J_tim s HJ _ _ _ Hkv) as (_ & _ & _ & D & _). fold c in D. congruence.
+    + intros id' Hne Hin'. apply drop_id_keep; assumption.
+    + rewrite app_nil_r. reflexivity.
+  - specialize (Hmap0 eq_refl). set (k := ckey c) in *.
+    assert (Huniq : forall kv, In kv (ctimers s) -> fst kv = k -> kv = (k, (p, id))).
+    { intros [k' [p' id']] Hkv Hk. cbn in Hk. subst k'.
+      pose proof (tmap_unique _ _ _ _ (J_keys s HJ) Hkv Hmap0) as E0. congruence. }
+    assert (Hother : forall kv, In kv (ctimers s) -> fst kv <> k -> snd (snd kv) <> id).
+    { intros [k' [p' id']] Hkv Hk. cbn in *. intros ->.
+      destruct (J_id_key s k p id k' p' HJ Hmap0 Hkv). congruence. }
+    destruct (0 <? ccircle c) eqn:Hcirc; cbn [negb andb fst snd cn cint cpos cheap cslots ctimers].
+    + (* one more revolution to wait *)
+      split; [apply J_field_update; [exact HJ|intros c0; cbn; auto]|].
+      split; [reflexivity|]. split; [reflexivity|]. split; [reflexivity|].
+      split; [|split; [|split]].
+      * rewrite scan_key_absl. unfold absl. rewrite map_as_flat_map.
+        apply flat_map_ext_in. intros kv Hkv.
+        destruct (Z.eqb_spec (fst kv) k) as [Ek|Ek].
+        -- rewrite (Huniq kv Hkv Ek). unfold scan_entry, E; cbn [fst snd epos ecircle ediff ekey evalue].
+           rewrite hget_upd_eq by exact Hid. fold c. rewrite Z.eqb_refl, Hcirc. reflexivity.
+        -- unfold E. rewrite hget_upd_neq by (apply not_eq_sym, Hother; assumption). reflexivity.
+      * intros id' Hne. apply hget_upd_neq. auto.
+      * auto.
+      * rewrite app_nil_r. reflexivity.
+    + destruct (0 <? cdiff c) eqn:Hdiff; cbn [negb andb fst snd cn cint cpos cheap cslots ctimers].
+      * (* relocated for the rest of its delay *)
+        set (np := (p + cdiff c) mod cn s).
+        assert (Hnp : 0 <= np < cn s) by (apply Z.mod_pos_bound; lia).
+        set (h1 := upd_nth id _ (cheap s)).
+        set (s1 := mkC (cn s) (cint s) (cpos s) h1 (cslots s) (ctimers s)).
+        assert (HJ1 : J s1) by (apply J_field_update; [exact HJ|intros c0; cbn; auto]).
+        assert (Hc1 : ckey (hget h1 id) = k /\ cremoved (hget h1 id) = false).
+        { unfold h1. rewrite hget_upd_eq by exact Hid. fold c. cbn. auto. }
+        set (s2 := mkC (cn s) (cint s) (cpos s) h1 (drop_id p id (cslots s)) (tdel k (ctimers s))).
+        assert (HJ2 : J s2).
+        { apply (J_drop s1 p id (tdel k (ctimers s))); auto.
+          - apply tdel_nodup, (J_keys s HJ).
+          - intros kv Hkv. apply tdel_in in Hkv. destruct Hkv as [Hkv Hk]. split; [exact Hkv|].
+            apply Hother; assumption.
+          - intros kv Hkv Hne. apply tdel_in. split; [exact Hkv|]. intros Hk.
+            apply Hne. rewrite (Huniq kv Hkv Hk). reflexivity. }
+        assert (HJ3 : J (mkC (cn s) (cint s) (cpos s) h1 (push np id (drop_id p id (cslots s)))
+                             (tput k (np, id) (tdel k (ctimers s))))).
+        { assert (A1 : (id < length (cheap s2))%nat)
+            by (cbn [cheap s2]; unfold h1; rewrite upd_nth_length; exact Hid).
+          assert (A2 : ~ In id (concat (cslots s2))).
+          { cbn [cslots s2]. intros Hc. apply in_concat_inv in Hc. destruct Hc as (q & Hq & Hc).
+            apply drop_id_in in Hc. destruct Hc as [Hc Hne].
+            unfold drop_id in Hq. rewrite upd_nth_length in Hq.
+            assert (q = Z.to_nat p) by (eapply nodup_concat_unique; eauto; apply (J_nodup s HJ)).
+            apply (Hne H). reflexivity. }
+          assert (A3 : tget k (ctimers s2) = None).
+          { destruct (tget k (ctimers s2)) as [pi|] eqn:E0; [|reflexivity].
+            apply tget_in in E0. cbn in E0. apply tdel_in in E0. cbn in E0. tauto. }
+          exact (J_attach s2 k np id HJ2 A1 A2 (proj2 Hc1) (proj1 Hc1) A3 Hnp). }
+        split.
+        { set (s3 := mkC _ _ _ _ _ _) in HJ3.
+          apply (J_timers_equiv s3 (tput k (np, id) (ctimers s))) in HJ3; [exact HJ3| |].
+          - apply tput_nodup, (J_keys s HJ).
+          - intros kv. cbn [ctimers s3]. split; intros H.
+            + apply tput_in in H. destruct H as [->|[H Hne]]; [apply tput_in_new|].
+              apply tput_in_old; [|exact Hne]. apply tdel_in. auto.
+            + apply tput_in in H. destruct H as [->|[H Hne]]; [apply tput_in_new|].
+              apply tdel_in in H. apply tput_in_old; tauto. }
+        split; [reflexivity|]. split; [reflexivity|]. split; [reflexivity|].
+        split; [|split; [|split]].
+        -- rewrite scan_key_absl. unfold tput.
+           rewrite (proj2 (tget_iff _ _ _ (J_keys s HJ)) Hmap0).
+           unfold absl. rewrite map_map, map_as_flat_map.
+           apply flat_map_ext_in. intros kv Hkv.
+           destruct (Z.eqb_spec (fst kv) k) as [Ek|Ek].
+           ++ rewrite (Huniq kv Hkv Ek). unfold scan_entry, E; cbn [fst snd epos ecircle ediff ekey evalue].
+              fold h1. unfold h1 at 1 2 3. rewrite hget_upd_eq by exact Hid. fold c.
+              rewrite Z.eqb_refl, Hcirc, Hdiff. reflexivity.
+           ++ unfold E. fold h1. unfold h1.
+              rewrite hget_upd_neq by (apply not_eq_sym, Hother; assumption). reflexivity.
+        -- intros id' Hne. apply hget_upd_neq. auto.
+        -- intros id' Hne Hin'. unfold push.
+           destruct (Nat.eq_dec (Z.to_nat np) (Z.to_nat p)) as [E0|E0].
+           ++ rewrite E0. rewrite nth_upd_nth_eq by (unfold drop_id; rewrite upd_nth_length; exact Hq0).
+              apply in_or_app. left. apply drop_id_keep; assumption.
+           ++ rewrite nth_upd_nth_neq by exact E0. apply drop_id_keep; assumption.
+        -- rewrite app_nil_r. reflexivity.
+      * (* due: it fires and is forgotten *)
+        split.
+        { apply (J_drop s p id (tdel k (ctimers s))); auto.
+          - apply tdel_nodup, (J_keys s HJ).
+          - intros kv Hkv. apply tdel_in in Hkv. destruct Hkv as [Hkv Hk]. split; [exact Hkv|].
+            apply Hother; assumption.
+          - intros kv Hkv Hne. apply tdel_in. split; [exact Hkv|]. intros Hk.
+            apply Hne. rewrite (Huniq kv Hkv Hk). reflexivity. }
+        split; [reflexivity|]. split; [reflexivity|]. split; [reflexivity|].
+        split; [|split; [|split]].
+        -- rewrite scan_key_absl. unfold absl, tdel. rewrite map_filter_as_flat_map.
+           apply flat_map_ext_in. intros kv Hkv.
+           destruct (Z.eqb_spec (fst kv) k) as [Ek|Ek]; cbn [negb]; [|reflexivity].
+           rewrite (Huniq kv Hkv Ek). unfold scan_entry, E; cbn [fst snd epos ecircle ediff ekey evalue].
+           fold c. rewrite Z.eqb_refl, Hcirc, Hdiff. reflexivity.
+        -- reflexivity.
+        -- intros id' Hne Hin'. apply drop_id_keep; assumption.
+        -- reflexivity.
+Qed.
+
+(* ------------------------------------------------------------------ *)
+(* Tick: the whole walk                                                 *)
+
+Definition live_keys (h : list cell) (ids : list nat) : list Z :=
+  map (fun id => ckey (hget h id)) (filter (fun id => negb (cremoved (hget h id))) ids).
+
+Definition fire_of (h : list cell) (id : nat) : fired :=
+  let c := hget h id in if fires c then [(ckey c, cval c)] else [].
+
+Lemma cscan_fold p ids : forall s f ks l0,
+  J s -> cpos s = p -> NoDup ids ->
+  (forall id, In id ids -> In id (nth (Z.to_nat p) (cslots s) [])) ->
+  absl (cheap s) (ctimers s) = fold_left (fun l k => scan_key (cn s) p k l) ks l0 ->
+  let r := fold_left (cscan1 p) ids (s, f) in
+  J (fst r) /\ cn (fst r) = cn s /\ cint (fst r) = cint s /\ cpos (fst r) = cpos s /\
+  absl (cheap (fst r)) (ctimers (fst r)) =
+    fold_left (fun l k => scan_key (cn s) p k l) (ks ++ live_keys (cheap s) ids) l0 /\
+  snd r = f ++ flat_map (fire_of (cheap s)) ids.
+Proof.
+  induction ids as [|id ids IH]; intros s f ks l0 HJ Hpos Hnd Hin Habs; cbn [fold_left].
+  - unfold live_keys; cbn. rewrite !app_nil_r.
+    split; [exact HJ|]. split; [reflexivity|]. split; [reflexivity|]. split; [reflexivity|].
+    split; [exact Habs|reflexivity].
+  - inversion Hnd as [|? ? Hnotin Hnd']; subst.
+    pose proof (cscan1_ok (cpos s) s f id HJ eq_refl (Hin id (or_introl eq_refl))) as Hstep.
+    cbv zeta in Hstep. destruct Hstep as (HJ1 & Hn1 & Hi1 & Hp1 & Habs1 & Hheap & Hslots & Hf1).
+    destruct (cscan1 (cpos s) (s, f) id) as [s1 f1] eqn:Es1. cbn [fst snd] in *.
+    set (c := hget (cheap s) id) in *.
+    set (ks1 := if cremoved c then ks else ks ++ [ckey c]).
+    assert (Hsame : forall id', In id' ids -> hget (cheap s1) id' = hget (cheap s) id').
+    { intros id' Hin'. apply Hheap. intros ->. contradiction. }
+    assert (Habs1' : absl (cheap s1) (ctimers s1) =
+                     fold_left (fun l k => scan_key (cn s1) (cpos s) k l) ks1 l0).
+    { rewrite Habs1, Hn1. unfold ks1. destruct (cremoved c); [exact Habs|].
+      rewrite fold_left_app. cbn [fold_left]. rewrite Habs. reflexivity. }
+    assert (Hin1 : forall id', In id' ids -> In id' (nth (Z.to_nat (cpos s)) (cslots s1) [])).
+    { intros id' Hin'. apply Hslots; [intros ->; contradiction|]. apply Hin. right. exact Hin'. }
+    specialize (IH s1 f1 ks1 l0 HJ1 Hp1 Hnd' Hin1 Habs1').
+    cbv zeta in IH. destruct IH as (HJr & Hnr & Hir & Hpr & Habsr & Hfr).
+    split; [exact HJr|]. split; [congruence|]. split; [congruence|]. split; [congruence|]. split.
+    + rewrite Habsr, Hn1. f_equal.
+      assert (Hlk : live_keys (cheap s1) ids = live_keys (cheap s) ids).
+      { unfold live_keys. clear -Hsame. induction ids as [|a l IHl]; cbn; [reflexivity|].
+        rewrite (Hsame a (or_introl eq_refl)).
+        assert (IH' := IHl (fun x Hx => Hsame x (or_intror Hx))).
+        destruct (cremoved (hget (cheap s) a)); cbn [negb map]; [exact IH'|].
+        rewrite (Hsame a (or_introl eq_refl)). f_equal. exact IH'. }
+      rewrite Hlk. unfold ks1, live_keys; cbn [filter]. fold c.
+      destruct (cremoved c); cbn [negb map]; [reflexivity|]. rewrite <- app_assoc. reflexivity.
+    + rewrite Hfr, Hf1. cbn [flat_map]. unfold fire_of at 2. fold c. rewrite <- app_assoc. f_equal. f_equal.
+      apply flat_map_ext_in. intros id' Hin'. unfold fire_of. rewrite (Hsame id' Hin'). reflexivity.
+Qed.
+
+Lemma J_set_pos s p : J s -> 0 <= p < cn s ->
+  J (mkC (cn s) (cint s) p (cheap s) (cslots s) (ctimers s)).
+Proof. intros [H1 H2 H3 H4 H5 H6 H7 H8] Hp. constructor; cbn [cheap cslots ctimers cn cint cpos]; auto. Qed.
+
+Lemma nodup_map_inj_on {A B} (h : A -> B) l :
+  NoDup l -> (forall x y, In x l -> In y l -> h x = h y -> x = y) -> NoDup (map h l).
+Proof.
+  induction l as [|a l IH]; cbn; intros Hnd Hinj; [constructor|].
+  inversion Hnd as [|? ? Ha Hl]; subst. constructor.
+  - intros Hin. apply in_map_iff in Hin. destruct Hin as (x & Hx & Hxl).
+    assert (x = a) by (apply Hinj; auto). subst. contradiction.
+  - apply IH; auto.
+Qed.
+
+Lemma scan_snd_keys_nodup n p l : NoDup (map ekey l) -> NoDup (map fst (snd (scan n p l))).
+Proof.
+  induction l as [|e l IH]; cbn [scan map]; intros H; [constructor|].
+  inversion H as [|? ? Ha Hl]; subst. specialize (IH Hl).
+  assert (Hsub : forall k, In k (map fst (snd (scan n p l))) -> In k (map ekey l)).
+  { clear. induction l as [|a l IHl]; cbn [scan]; [auto|].
+    destruct (scan n p l) as [keep f]. cbn [snd] in *.
+    destruct (scan_entry n p a); cbn [snd map]; intros k Hk.
+    - right. apply IHl, Hk.
+    - destruct Hk as [<-|Hk]; [left; reflexivity|right; apply IHl, Hk]. }
+  destruct (scan n p l) as [keep f]. cbn [snd] in *.
+  destruct (scan_entry n p e); cbn [snd map]; [exact IH|].
+  constructor; [|exact IH]. intros Hin. apply Ha. apply Hsub. exact Hin.
+Qed.
+
+Lemma cstep_tick s :
+  J s -> J (fst (con_tick s)) /\ cabs (fst (con_tick s)) = fst (on_tick (cabs s)) /\
+         Permutation (snd (con_tick s)) (snd (on_tick (cabs s))).
+Proof.
+  intros HJ. unfold con_tick, on_tick. cbv zeta. cbn [cabs sn spos sents].
+  set (p := (cpos s + 1) mod cn s).
+  assert (Hp : 0 <= p < cn s) by (apply Z.mod_pos_bound; pose proof (J_n s HJ); lia).
+  set (s0 := mkC (cn s) (cint s) p (cheap s) (cslots s) (ctimers s)).
+  pose proof (J_set_pos s p HJ Hp) as HJ0. fold s0 in HJ0.
+  set (ids := nth (Z.to_nat p) (cslots s) []).
+  set (l0 := absl (cheap s) (ctimers s)).
+  pose proof (pos_nat_lt s p HJ Hp) as Hq0.
+  assert (Hndids : NoDup ids) by (apply nodup_concat_nth, (J_nodup s HJ)).
+  destruct (cscan_fold p ids s0 [] [] l0 HJ0 eq_refl Hndids (fun id H => H) eq_refl)
+    as (HJr & Hnr & Hir & Hpr & Habsr & Hfr).
+  cbn [app cn cint cpos cheap s0] in *.
+  (* facts relating the ticked slot and the map *)
+  assert (Hslotmap : forall id, In id ids -> cremoved (hget (cheap s) id) = false ->
+                      In (ckey (hget (cheap s) id), (p, id)) (ctimers s)).
+  { intros id Hid Hl. destruct (J_slot s HJ _ _ Hq0 Hid) as (_ & B). specialize (B Hl).
+    rewrite Z2Nat.id in B by lia. exact B. }
+  assert (Hinj : forall x y, In x ids -> In y ids ->
+            cremoved (hget (cheap s) x) = false -> cremoved (hget (cheap s) y) = false ->
+            ckey (hget (cheap s) x) = ckey (hget (cheap s) y) -> x = y).
+  { intros x y Hx Hy Lx Ly Hk. pose proof (Hslotmap x Hx Lx) as A. pose proof (Hslotmap y Hy Ly) as B.
+    rewrite Hk in A. pose proof (tmap_unique _ _ _ _ (J_keys s HJ) A B) as E0. congruence. }
+  assert (Hscan : fst (scan (cn s) p l0) =
+                  fold_left (fun l k => scan_key (cn s) p k l) (live_keys (cheap s) ids) l0).
+  { apply scan_is_fold.
+    - unfold live_keys. apply nodup_map_inj_on; [apply NoDup_filter, Hndids|].
+      intros x y Hx Hy Hk. apply filter_In in Hx. apply filter_In in Hy.
+      destruct Hx as [Hx Lx], Hy as [Hy Ly]. apply negb_true_iff in Lx. apply negb_true_iff in Ly.
+      apply Hinj; auto.
+    - intros e He Hpos. unfold l0, absl in He. apply in_map_iff in He.
+      destruct He as ([k [p' id]] & <- & Hkv). cbn [E epos ekey fst snd] in *. subst p'.
+      destruct (J_tim s HJ _ _ _ Hkv) as (_ & _ & Hkey & Hlive & Hslot).
+      unfold live_keys. apply in_map_iff. exists id. split; [exact Hkey|].
+      apply filter_In. split; [exact Hslot|]. rewrite Hlive. reflexivity. }
+  set (R := fold_left (cscan1 p) ids (s0, [])).
+  assert (HJr' : J (fst R)) by exact HJr.
+  assert (Hnr' : cn (fst R) = cn s) by exact Hnr.
+  assert (Hir' : cint (fst R) = cint s) by exact Hir.
+  assert (Hpr' : cpos (fst R) = p) by exact Hpr.
+  assert (Habsr' : absl (cheap (fst R)) (ctimers (fst R)) =
+                   fold_left (fun l k => scan_key (cn s) p k l) (live_keys (cheap s) ids) l0) by exact Habsr.
+  assert (Hfr' : snd R = flat_map (fire_of (cheap s)) ids) by exact Hfr.
+  clear HJr Hnr Hir Hpr Habsr Hfr.
+  change (J (fst R) /\
+          cabs (fst R) = fst (let '(keep, f) := scan (cn s) p l0 in
+                              (mkState (cn s) (cint s) p keep, f)) /\
+          Permutation (snd R) (snd (let '(keep, f) := scan (cn s) p l0 in
+                                    (mkState (cn s) (cint s) p keep, f)))).
+  destruct (scan (cn s) p l0) as [keep ff] eqn:Esc. cbn [fst snd] in *.
+  split; [exact HJr'|]. split.
+  - rewrite cabs_eq. rewrite Hnr', Hir', Hpr', Habsr', <- Hscan. reflexivity.
+  - rewrite Hfr'.
+    assert (Hff : ff = snd (scan (cn s) p l0)) by (rewrite Esc; reflexivity).
+    rewrite Hff. apply NoDup_Permutation.
+    + (* concrete callbacks: distinct keys *)
+      assert (Hform : flat_map (fire_of (cheap s)) ids =
+                      map (fun id => (ckey (hget (cheap s) id), cval (hget (cheap s) id)))
+                          (filter (fun id => fires (hget (cheap s) id)) ids)).
+      { clear. induction ids as [|a l IH]; cbn; [reflexivity|]. unfold fire_of at 1.
+        destruct (fires (hget (cheap s) a)); cbn; [f_equal|]; exact IH. }
+      rewrite Hform. apply nodup_map_inj_on; [apply NoDup_filter, Hndids|].
+      intros x y Hx Hy Hk. apply filter_In in Hx. apply filter_In in Hy.
+      destruct Hx as [Hx Fx], Hy as [Hy Fy]. unfold fires in Fx, Fy.
+      apply andb_true_iff in Fx. destruct Fx as [Fx _]. apply andb_true_iff in Fx. destruct Fx as [Lx _].
+      apply andb_true_iff in Fy. destruct Fy as [Fy _]. apply andb_true_iff in Fy. destruct Fy as [Ly _].
+      apply negb_true_iff in Lx. apply negb_true_iff in Ly. apply Hinj; auto. congruence.
+    + (* flat callbacks: distinct keys, hence distinct pairs *)
+      assert (Hk : NoDup (map fst (snd (scan (cn s) p l0)))).
+      { apply scan_snd_keys_nodup. unfold l0. rewrite absl_keys. apply (J_keys s HJ). }
+      revert Hk. generalize (snd (scan (cn s) p l0)). clear.
+      intros l. induction l as [|a l IH]; cbn; intros H; [constructor|].
+      inversion H as [|? ? Ha Hl]; subst. constructor; [|apply IH, Hl].
+      intros Hin. apply Ha. apply in_map. exact Hin.
+    + intros [k v]. rewrite scan_snd. rewrite !in_flat_map. split.
+      * intros (id & Hid & Hkv). unfold fire_of in Hkv.
+        destruct (fires (hget (cheap s) id)) eqn:Fi; [|destruct Hkv].
+        destruct Hkv as [[= <- <-]|[]]. unfold fires in Fi.
+        apply andb_true_iff in Fi. destruct Fi as [Fi Fd]. apply andb_true_iff in Fi. destruct Fi as [Fl Fc].
+        apply negb_true_iff in Fl, Fc, Fd.
+        exists (E (cheap s) (ckey (hget (cheap s) id), (p, id))). split.
+        -- unfold l0, absl. apply in_map. apply Hslotmap; assumption.
+        -- unfold scan_entry, E; cbn [fst snd epos ecircle ediff ekey evalue].
+           rewrite Z.eqb_refl, Fc, Fd. left. reflexivity.
+      * intros (e & He & Hkv). unfold l0, absl in He. apply in_map_iff in He.
+        destruct He as ([k' [p' id]] & <- & Hkvt).
+        unfold scan_entry, E in Hkv; cbn [fst snd epos ecircle ediff ekey evalue] in Hkv.
+        destruct (Z.eqb_spec p' p) as [->|Hne]; [|destruct Hkv].
+        destruct (0 <? ccircle (hget (cheap s) id)) eqn:Fc; [destruct Hkv|].
+        destruct (0 <? cdiff (hget (cheap s) id)) eqn:Fd; [destruct Hkv|].
+        destruct Hkv as [[= <- <-]|[]].
+        destruct (J_tim s HJ _ _ _ Hkvt) as (_ & _ & Hkey & Hlive & Hslot).
+        exists id. split; [exact Hslot|]. unfold fire_of, fires. rewrite Hlive, Fc, Fd. cbn.
+        left. rewrite Hkey. reflexivity.
+Qed.
+
+(* ------------------------------------------------------------------ *)
+(* the refinement                                                       *)
+
+Theorem cstep_refines s o :
+  J s ->
+  J (fst (cstep s o)) /\ cabs (fst (cstep s o)) = fst (step (cabs s) o) /\
+  Permutation (snd (cstep s o)) (snd (step (cabs s) o)).
+Proof.
+  intros HJ. destruct o as [k v d|k d|k| |]; cbn [cstep step fst snd].
+  - destruct (cstep_set s k v d HJ) as [A B]. auto.
+  - destruct (cstep_move s k d HJ) as (A & B & C). rewrite C. auto.
+  - destruct (cstep_remove s k HJ) as [A B]. auto.
+  - apply cstep_tick, HJ.
+  - apply cstep_drain, HJ.
+Qed.
+
+Lemma crun_refines s ops :
+  J s -> Forall2 (@Permutation (Z * Z)) (crun s ops) (run (cabs s) ops).
+Proof.
+  revert s. induction ops as [|o ops IH]; intros s HJ; cbn [crun run]; [constructor|].
+  destruct (cstep_refines s o HJ) as (HJ' & Habs & Hperm).
+  destruct (cstep s o) as [s' f]. destruct (step (cabs s) o) as [t g]. cbn [fst snd] in *.
+  constructor; [exact Hperm|]. rewrite <- Habs. apply IH, HJ'.
+Qed.
+
+Theorem concrete_refines_flat n i ops :
+  1 <= n -> 1 <= i ->
+  Forall2 (@Permutation (Z * Z)) (crun (cinit n i) ops) (run (init n i) ops).
+Proof.
+  intros Hn Hi. rewrite <- cabs_init. apply crun_refines, J_init; assumption.
+Qed.
+
+(* hence the pointer-level wheel runs, at every operation, the callbacks of the
+   "key |-> remaining ticks" specification (up to order inside one operation) *)
+Theorem concrete_refines_due_map n i ops :
+  1 <= n -> 1 <= i ->
+  Forall2 (@Permutation (Z * Z)) (crun (cinit n i) ops) (sp_run i [] ops).
+Proof.
+  intros Hn Hi. rewrite <- (wheel_refines_spec n i ops Hn Hi).
+  apply concrete_refines_flat; assumption.
+Qed.
